@@ -298,36 +298,89 @@ pub fn tower(shapes: &[usize], depth: usize, via_defs: bool) -> String {
     }
 }
 
-fn tower_items() -> Vec<(Vec<usize>, usize, bool)> {
-    let mut v = vec![];
+/// small inputs of extreme shape (all <= 4 KiB): the work of every pass must stay polynomial in the depth,
+/// width or length
+fn stress_items() -> Vec<(String, String)> {
+    let mut v: Vec<(String, String)> = vec![];
     for shape in 0..TOWER_SHAPES {
         for depth in [24usize, 40, 64] {
-            v.push((vec![shape], depth, false));
+            v.push((format!("tower shape {shape} depth {depth}"), tower(&[shape], depth, false)));
         }
-        v.push((vec![shape], 40, true));
+        v.push((format!("tower shape {shape} depth 40 via definitions"), tower(&[shape], 40, true)));
     }
-    v.push(((0..TOWER_SHAPES).collect(), 48, false));
-    v.push(((0..TOWER_SHAPES).rev().collect(), 48, true));
+    let all: Vec<usize> = (0..TOWER_SHAPES).collect();
+    let rev: Vec<usize> = (0..TOWER_SHAPES).rev().collect();
+    v.push(("tower mixed depth 48".into(), tower(&all, 48, false)));
+    v.push(("tower mixed depth 48 via definitions".into(), tower(&rev, 48, true)));
+    // stacked "diamond" definitions: the number of paths through the dependency graph is 2^layers
+    let diamond = |layers: usize, used: bool| {
+        let mut t = if used { "cmd <L0>;\n".to_string() } else { "cmd x;\n".to_string() };
+        for i in 0..layers {
+            let nxt = if i + 1 < layers { format!("<L{}>", i + 1) } else { "z".to_string() };
+            t.push_str(&format!("<L{i}> ::= <P{i}> | <Q{i}>;\n<P{i}> ::= p{i} {nxt};\n<Q{i}> ::= q{i} {nxt};\n"));
+        }
+        t
+    };
+    v.push(("diamond definitions, 40 layers, not used by the command".into(), diamond(40, false)));
+    v.push(("diamond definitions, 9 layers, used".into(), diamond(9, true)));
+    let mut chain = "cmd <C0>;\n".to_string();
+    for i in 0..150 {
+        let nxt = if i < 149 { format!("<C{}>", i + 1) } else { "end".to_string() };
+        chain.push_str(&format!("<C{i}> ::= c{i} {nxt};\n"));
+    }
+    v.push(("chain of 150 definitions".into(), chain));
+    v.push(("alternation of 400 literals".into(), format!("cmd {};\n", (0..400).map(|i| format!("w{i}")).collect::<Vec<_>>().join(" | "))));
+    v.push(("|| chain of 300 literals".into(), format!("cmd {};\n", (0..300).map(|i| format!("f{i}")).collect::<Vec<_>>().join(" || "))));
+    v.push(("250 call variants".into(), (0..250).map(|i| format!("cmd v{i} t{i};\n")).collect::<String>()));
+    v.push(("word of 200 parts".into(), format!("cmd {};\n", (0..200).map(|i| if i % 2 == 0 { format!("p{i}=(a|b)") } else { format!(",s{i}") }).collect::<String>())));
+    v.push(("sequence of 120 optional items".into(), format!("cmd {};\n", (0..120).map(|i| format!("[o{i}]")).collect::<Vec<_>>().join(" "))));
     v
 }
 
-fn case_tower(it: &(Vec<usize>, usize, bool)) -> Outcome {
-    let text = tower(&it.0, it.1, it.2);
-    let shell_i = (it.0[0] + it.1) % 4;
-    let shell = crate::obs::SHELLS[shell_i];
-    match judge(text.as_bytes(), shell, it.1 % 3) {
-        Err(Ok(f)) => Outcome::Fail(f),
+fn case_stress(it: &(String, String)) -> Outcome {
+    let (label, text) = it;
+    if text.len() > 4096 {
+        return Outcome::Broken(format!("stress input {label:?} is larger than 4 KiB"));
+    }
+    let k = label.len() + text.len();
+    let shell = crate::obs::SHELLS[k % 4];
+    match judge(text.as_bytes(), shell, k % 3) {
+        Err(Ok(mut f)) => {
+            f.msg = format!("{label}: {}", f.msg);
+            Outcome::Fail(f)
+        }
         Err(Err(why)) => Outcome::Broken(why),
         Ok(v) => {
             let mut c = Case::new(hex(text.as_bytes()));
             c.nontrivial = v.parsed;
-            c.class("family:nesting-tower");
+            c.class("family:stress-shape");
             c.class(class_of(&v.first_line, v.status));
-            if it.1 == 24 && it.0[0] == 0 {
-                c.sample = Some(json!({"input": text, "shell": shell, "status": v.status}));
+            if label.starts_with("tower shape 0 depth 24") || label.starts_with("diamond definitions, 40") {
+                c.sample = Some(json!({"what": label, "input": text, "shell": shell, "status": v.status}));
             }
             Outcome::Pass(c)
         }
+    }
+}
+
+fn drop_description(g: &crate::ast::G, which: &str) -> crate::ast::G {
+    use crate::ast::{Stmt, E, G};
+    fn go(e: &E, which: &str) -> E {
+        match e {
+            E::Lit { text, descr } if descr.as_deref() == Some(which) => E::Lit { text: text.clone(), descr: None },
+            E::Descr(inner, d) if d == which => go(inner, which),
+            _ => e.map_children(&mut |c| go(c, which)),
+        }
+    }
+    G {
+        stmts: g
+            .stmts
+            .iter()
+            .map(|st| match st {
+                Stmt::Call { name, e } => Stmt::Call { name: name.clone(), e: go(e, which) },
+                Stmt::Def { name, shell, e } => Stmt::Def { name: name.clone(), shell: shell.clone(), e: go(e, which) },
+            })
+            .collect(),
     }
 }
 
@@ -345,6 +398,9 @@ fn gen_input(bytes: &[u8]) -> (Vec<u8>, &'static str, usize, usize) {
             let mut sa = Src::new(a);
             let (g, _) = crate::gen_clean::gen_clean(&mut sa, &p);
             let g2 = if s.chance(3, 4) { plant(&mut s, &g).g } else { g };
+            // described next to undescribed: one of two conflicting descriptions is dropped (whatever the
+            // compiler makes of it, the exit status and the script must agree)
+            let g2 = if s.chance(1, 3) { drop_description(&g2, "second descr") } else { g2 };
             let rest: Vec<u8> = (0..64).map(|_| s.byte()).collect();
             let mut st = Style::random(&rest);
             st.blank_weight = 5;
@@ -540,7 +596,7 @@ pub fn run(tier: Tier, seed: u64) -> i32 {
         tier,
         seed,
         "exploration",
-        "inputs <=4 KiB: clean grammars with 0-2 planted mistakes (cycles of every reachability pattern, duplicates, unknown shells, non-command specialisations, spaces/placeholders inside words, conflicting descriptions) printed with random multi-line layout; token-level mutations of printed clean grammars (delete/duplicate/swap/insert/replace/truncate/cut/backslash/move); token soups; raw bytes incl. invalid UTF-8; nesting towers (7 bracket shapes incl. repetition in repetition, optional repetition, repetition inside a word, || under repetition, nested 4..64 deep, inline or one definition per level; a fixed set of 30 towers is run first, part 'nesting-towers'). Part 'binary': the built binary x one of 4 shells x destination {stdout, fresh file, existing file}; oracle: ends within 10 s with status 0 (complete script at the destination, no error on stderr) or 1 (diagnostic on stderr, nothing on stdout, destination untouched); never a signal, panic or other status. Part 'library': the same inputs through parse->validate->regex->DFA->minimize->4 emitters in-process; oracle: no panic, accepted grammars give complete scripts (cyclic definitions are pre-screened out of this part). Non-trivial: input got past the parser or contains a statement terminator; distinct by input bytes.",
+        "inputs <=4 KiB: clean grammars with 0-2 planted mistakes (cycles of every reachability pattern, duplicates, unknown shells, non-command specialisations, spaces/placeholders inside words, conflicting descriptions) printed with random multi-line layout; token-level mutations of printed clean grammars (delete/duplicate/swap/insert/replace/truncate/cut/backslash/move); token soups; raw bytes incl. invalid UTF-8; nesting towers (7 bracket shapes incl. repetition in repetition, optional repetition, repetition inside a word, || under repetition, nested 4..64 deep, inline or one definition per level; a fixed set of 30 towers plus 8 more extreme shapes — 40 layers of 'diamond' definitions nothing uses (2^40 paths through the dependency graph), a chain of 150 definitions, 400 alternatives, 300 || branches, 250 call variants, a word of 200 parts, 120 optional items — is run first, part 'stress-shapes'). Part 'binary': the built binary x one of 4 shells x destination {stdout, fresh file, existing file}; oracle: ends within 10 s with status 0 (complete script at the destination, no error on stderr) or 1 (diagnostic on stderr, nothing on stdout, destination untouched); never a signal, panic or other status. Part 'library': the same inputs through parse->validate->regex->DFA->minimize->4 emitters in-process; oracle: no panic, accepted grammars give complete scripts (cyclic definitions are pre-screened out of this part). Non-trivial: input got past the parser or contains a statement terminator; distinct by input bytes.",
     );
     run.assumptions.push("a timeout is reported as a violation only when reproduced three times; exponential nonterminal fan-out is excluded by construction (<=5 definitions, <=4 KiB)".into());
     run.assumptions.push("process creation on this box is a serial resource (~70 complgen runs/s), so the binary part is small and the in-process part carries the volume".into());
@@ -548,7 +604,7 @@ pub fn run(tier: Tier, seed: u64) -> i32 {
     run.shrink_iters = 150;
     run.enumerate("regress", load_regress("C06"), false, case_regress);
     if !run.failed() {
-        run.enumerate("nesting-towers", tower_items(), true, case_tower);
+        run.enumerate("stress-shapes", stress_items(), true, case_stress);
     }
     if !run.failed() {
         run.random("binary", tier.pick(1_500, 30_000), 700, case);
